@@ -48,7 +48,7 @@ Lemma update_reg_frame s r q k t' k' :
   r_kick r = Some k -> kfd_eqb k' k = false ->
   registered (update_reg s r q) t' k' = registered s t' k'.
 Proof.
-  intros Hk Hne. unfold update_reg. rewrite Hk.
+  intros Hk Hne. unfold update_reg, GenCtl.ctl_reg_wanted. rewrite Hk.
   destruct (owner_of (d_masks s) q 0) as [[t idx]|]; [|reflexivity].
   destruct (r_ready r && r_enabled r).
   - destruct (existsb _ (d_regs s)); [reflexivity|].
@@ -62,7 +62,7 @@ Proof. intros H. unfold update_reg. rewrite H. reflexivity. Qed.
 Lemma update_reg_masks s r q : d_masks (update_reg s r q) = d_masks s /\ d_next_inst (update_reg s r q) = d_next_inst s.
 Proof.
   unfold update_reg. destruct (r_kick r); [|auto]. destruct (owner_of _ _ _) as [[t i]|]; [|auto].
-  destruct (_ && _); [destruct (existsb _ _)|]; auto.
+  destruct (GenCtl.ctl_reg_wanted _ _); [destruct (existsb _ _)|]; auto.
 Qed.
 
 Lemma registered_put_ring s q r t k : registered (put_ring s q r) t k = registered s t k.
@@ -145,7 +145,7 @@ Proof.
   intros H. unfold h_set_vring_call. destruct (get_ring s q) as [r|] eqn:Hr; [|exact H].
   set (r1 := with_ring r (r_ready r) (r_enabled r) (r_kick r) (Some f)).
   assert (H1 : RInv (put_ring s q r1)) by (eapply put_ring_flags_inv; eauto).
-  destruct (negb (r_ready r1) && o_is_some (r_kick r1)); cbn [fst]; [|exact H1].
+  unfold GenCtl.ctl_needs_init. destruct (negb (r_ready r1) && o_is_some (r_kick r1)); cbn [fst]; [|exact H1].
   eapply ring_update_inv; [exact H1|eapply get_put_ring_same; exact Hr|reflexivity].
 Qed.
 
@@ -362,7 +362,7 @@ Proof.
       + rewrite (HothA x Nx) in Hx. pose proof (Ho x rx kx Hx Hkx). lia. }
   assert (Hr1 : get_ring s1 q = Some r1) by (rewrite Hget1; exact HgetA).
   fold k s0 s0' r1 sA s1.
-  destruct (negb (r_ready r1)); cbn [fst].
+  destruct (GenCtl.ctl_needs_init (r_ready r1) (o_is_some (r_kick r1))); cbn [fst].
   - eapply weak_finish; [exact HW|exact Hr1|reflexivity].
   - rewrite <- (put_ring_same s1 q r1 Hr1) at 1. eapply weak_finish; [exact HW|exact Hr1|reflexivity].
 Qed.
